@@ -46,6 +46,7 @@ import (
 	"testing/synctest"
 	"time"
 
+	"github.com/nspcc-dev/neofs-node/pkg/local_object_storage/blobstor/fstree"
 	meta "github.com/nspcc-dev/neofs-node/pkg/local_object_storage/metabase"
 	"github.com/nspcc-dev/neofs-node/pkg/local_object_storage/shard"
 	"github.com/nspcc-dev/neofs-node/pkg/local_object_storage/shard/mode"
@@ -187,7 +188,12 @@ func runCase(t *rapid.T, rec *ev.Recorder) {
 			}
 		}
 	}
+	// CombinedCountLimit(1): uni reuses object IDs across containers and combined
+	// files index members by object ID only (HARNESS.md pitfall); it also keeps
+	// blob writes free of batching timers, which cannot fire while the case
+	// goroutine waits on a mutex (synctest).
 	sh, err = stor.OpenShard(stor.ShardCfg{Dir: dir, Epoch: ep, WriteCache: withWC, Payments: pay,
+		FSTOpts:    []fstree.Option{fstree.WithCombinedCountLimit(1)},
 		GCInterval: time.Second, Extra: []shard.Option{shard.WithExpiredObjectsCallback(expiredCb)}})
 	if err != nil {
 		ev.Inconclusive("open shard: %v", err)
@@ -217,13 +223,18 @@ func runCase(t *rapid.T, rec *ev.Recorder) {
 		first[k] = s
 		return s
 	}
+	putOK := map[int]bool{}
 	put := func(s uni.Spec, withBin bool) error {
 		o := uni.Build(s)
 		var bin []byte
 		if withBin {
 			bin = o.Marshal()
 		}
-		return sh.Put(o, bin)
+		err := sh.Put(o, bin)
+		if err == nil {
+			putOK[s.Cnr] = true
+		}
+		return err
 	}
 
 	// ---------- phase 1: read-write history ----------
@@ -240,6 +251,11 @@ func runCase(t *rapid.T, rec *ev.Recorder) {
 			logf("rw mark c%d %v -> %v", c, ids, err != nil)
 		case k < 14:
 			c, ids := cnrGen.Draw(t, "c"), idsGen.Draw(t, "ids")
+			if !putOK[c] {
+				// Shard.Delete with write-cache panics for a container unknown to the
+				// metabase (reported separately; not a C14 matter)
+				continue
+			}
 			err := sh.Delete(uni.Cnr(c), idList(ids))
 			logf("rw delete c%d %v -> %v", c, ids, err != nil)
 		case k < 16:
